@@ -164,21 +164,17 @@ Example C15_read_iff_spec_nonvacuous :
   end.
 Proof. exact TotalProofs5.read_iff_spec_nonvacuous. Qed.
 
-(* Tie of the hand-written constants of Keystore/Model.v to the source.  Gen/Consts.v is regenerated
-   on every run by the translator harness/cmd/gen_consts from the `const` declarations of
-   pkg/keystorev3/{wallet,walletfile,scrypt,pbkdf2}.go as they are NOW (nLight = 1 << 12 is
-   evaluated by the translator).  The model keeps its own literals; this theorem is what breaks when
-   a scrypt preset, the version, the derived key length or a cipher / kdf / prf name changes in the
-   source. *)
+(* Tie of the hand-written constants of Keystore/Model.v that the READ path uses (version check, kdf
+   dispatch, dklen check, prf check) to the source.  Gen/Consts.v is regenerated on every run by the
+   translator harness/cmd/gen_consts from the `const` declarations of
+   pkg/keystorev3/{walletfile,pbkdf2}.go as they are NOW.  The model keeps its own literals; this
+   theorem is what breaks when the version, the derived key length or a kdf / prf name changes in
+   the source.  (The constants only the writers use -- scrypt presets, defaultR, the cipher name --
+   are tied by C07_source_constants.) *)
 From FFS Require Gen.Consts.
 Theorem C15_source_constants :
-  Gen.Consts.keystorev3_nLight = Keystore.Model.nLight /\
-  Gen.Consts.keystorev3_nStandard = Keystore.Model.nStandard /\
-  Gen.Consts.keystorev3_pDefault = Keystore.Model.pDefault /\
-  Gen.Consts.keystorev3_defaultR = Keystore.Model.defaultR /\
   Gen.Consts.keystorev3_version3 = Keystore.Model.version3 /\
   Gen.Consts.keystorev3_derivedKeyLen = Keystore.Model.derivedKeyLen /\
-  ascii_bytes Gen.Consts.keystorev3_cipherAES128ctr = Keystore.Model.cipherAES128ctr /\
   ascii_bytes Gen.Consts.keystorev3_kdfTypeScrypt = Keystore.Model.kdfTypeScrypt /\
   ascii_bytes Gen.Consts.keystorev3_kdfTypePbkdf2 = Keystore.Model.kdfTypePbkdf2 /\
   ascii_bytes Gen.Consts.keystorev3_prfHmacSHA256 = Keystore.Model.prfHmacSHA256.
